@@ -66,6 +66,24 @@ def strata(tier):
             if build.dtype_args_are_types(t) and t["c"] not in ("leaf", "null"):
                 break
         yield {"term": t, "sseed": j, "probe": cont}
+    # operands of one list that differ only in the TYPE of a key / number / container (anything that keys
+    # operands by a text form confuses them)
+    twins = [({1: "a"}, {"1": "a"}), ([1, 2], [1.0, 2]), (1, True), (1, "1"), ({"a": [1]}, {"a": [True]}), (None, "None"), ([1, [2]], [1, [2.0]])]
+    for j, (u, v) in enumerate(twins):
+        for op in ("and", "or", "xor"):
+            for fn in ("equal_to", "not_equal_to"):
+                t = {"c": op, "a": L("value", fn, u), "b": L("value", fn, v)}
+                yield {"term": t, "sseed": 0, "probe": [u, v, 1, "1", True, None, "None", [1, 2], [1.0, 2], {"a": [1]}], "stratum": "twin-operands", "flat": True}
+    # long operand lists (above any 'split into a balanced tree' threshold): the parse must == the DSL chain
+    for n in (20, 49, 50, 64, 65, 100):
+        for op in ("and", "or", "xor"):
+            rng = G.rng_for("C09-long", n, op)
+            ls = [G.leaf(rng, kind="value", pre=None, fn=rng.choice(["equal_to", "less_than", "truthy", "is_instance", "in_"]), well_typed=True,
+                         pool=c01.ZOO_VALUES) for _ in range(n)]
+            t = ls[0]
+            for x in ls[1:]:
+                t = {"c": op, "a": t, "b": x}
+            yield {"term": t, "sseed": 0, "probe": c01.ZOO_LIST, "stratum": "long-lists", "flat": True}
     # literal mapping arguments: string keys incl. path-like ones, and non-string keys
     for j, lit in enumerate([{}, {"a": 1}, {"path": [1]}, {"path": ["a"], "b": 2}, {"path.length": 3}, {"b": 1, "a": 2, "c": [3]}, {"z": {"y": 1, "x": 2}, "a": 0}, {"paths": [1]}, {"pathname": "x"}, {"path_to": ["a"]}, {"pathway": 1}, {"path-x": 1}, {"value": 3}, {"key": "a"}, {"keys": [1, 2]}, {"value": 1, "x": 2}, {"lower": 1}, {"N": 1},
                              {"classes": "int"}, {"items": {"a": 1}}, {"tolerance": 0.5}, {"path.map_keys": 1}, {"path.first.map_values": [1]}, {"path.a_b": 2},
@@ -123,7 +141,7 @@ def run(case, ctx):
     rng = G.rng_for("spell", case["sseed"], repr(t)[:100])
     sp = build.Spelling(rng)
     try:
-        spec = build.nary_spec(t, rng, sp)
+        spec = build.nary_spec(t, None if case.get("flat") else rng, sp)
     except build.Inexpressible:
         ctx.count("skipped:inexpressible-literal-key")
         return
